@@ -406,7 +406,7 @@ func drive(chk *Check, tier string) int {
 	// repository (VERIF_REPO, used to validate the monitors against seeded changes)
 	// writes its summary elsewhere and never touches /verif/evidence.
 	evDir := filepath.Join(Root, "evidence")
-	if r := os.Getenv("VERIF_REPO"); (r != "" && r != "/repo") || os.Getenv("VERIF_ONLY") != "" {
+	if r := os.Getenv("VERIF_REPO"); (r != "" && r != "/repo") || os.Getenv("VERIF_ONLY") != "" || os.Getenv("VERIF_NO_EVIDENCE") != "" {
 		evDir = filepath.Join(Root, "bin", "evidence-scratch")
 	}
 	_ = os.MkdirAll(evDir, 0o755)
